@@ -71,7 +71,18 @@ def run(tier, seed):
                 so += [line("opml2text", fam, "o%d" % j, "opml"), line("opml2text", fam, "o%d" % j, "itmz")]
             so += [line("conv", "s_conv", "o%d" % j, 0, docs.EXT["PARSE_OPML"], 0), line("conv", "d_data", "o%d" % j, 11, docs.EXT["PARSE_OPML"], 0), line("conv", "s_conv", "o%d" % j, 2, docs.EXT["PARSE_ITMZ"], 0)]
         segs.append(so)
-        res = run_harness(exe, segs, timeout=30)
+        # transclusion of hostile sources (markers of every length around the 1000-byte cap, unterminated / nested markers)
+        wd = scratch("c01tx")
+        st = ["seg\ttx", "timeout\t20"]
+        txdocs = [b"a {{" + b"n" * n + b"}} b {{x.txt}}\n" for n in range(985, 1110)] + [b"{{", b"{{}}", b"{{{{a}}}}", b"Title: t\ntransclude base: /nonexistent\n\n{{a}}", b"{{a}} {{" + b"/" * 300 + b"}}", b"{{TOC}}{{TOC:1-3}}{{toc}}", b"{{x.*}}{{.*}}{{*}}"]
+        for j, b in enumerate(txdocs):
+            fp = os.path.join(wd, "t%d.txt" % j); open(fp, "wb").write(b)
+            st.append(line("transclude", sx(fp), sx(wd + "/"), FMTS[j % 13], "src")); st.append(line("transclude", sx(fp), sx(wd), 0, "sde"[j % 3]))
+        segs.append(st)
+        try:
+            res = run_harness(exe, segs, timeout=30)
+        finally:
+            shutil.rmtree(wd, ignore_errors=True)
         trace = []
         for si, (seg, r) in enumerate(zip(segs, res)):
             trace.append(dict(e="reset"))
